@@ -56,6 +56,7 @@ ASSUMPTIONS = ['OS-level write faults (ENOSPC, EIO, signals) are outside the fau
                'an injected element that the writer skips with a warning makes the cell a successful write of the remaining regions',
                'the reference for read-back is Regions.parse(Regions.serialize(...)) of the same list and options; when that reference itself raises (round-trip defects owned by C09/C11/C12) the read-back is not judged']
 
+K_EMPTYDS9 = 'ds9-empty-list-writes-zero-bytes-not-identifiable-by-content'
 K_DANGLING = 'fits-dangling-symlink-written-through'
 K_PARTIALFILE = 'fits-writeto-failure-leaves-partial-file'
 
@@ -239,6 +240,8 @@ def enumerate_cells(tier, seed):
                         lc.append(S.reg('TextSkyRegion' if dom == 'sky' else 'TextPixelRegion',
                                         center=(S.sky(10.0 + k, 20.0, 'icrs') if dom == 'sky' else S.pix(3.0 + k, 4.0)), text=txt))
                 emit(fmt, 'Regions', lc, kw, 'good-linechars')
+                # an empty list is a valid list: it writes (a possibly empty file) and reads back as an empty list
+                emit(fmt, 'Regions', [], kw, 'good-empty')
         for _ in range(1 if simple else 8):            # Region.write
             regs, kw, dom = good_list(prng, fmt, 1, simple)
             emit(fmt, 'Region', regs, kw, 'good')
@@ -670,10 +673,14 @@ def run_cell(case, obs, casedir):
     if before['kind'] != 'absent' and not (before['kind'] == 'symlink' and before['target']['kind'] == 'absent'):
         obs.check(b'c14-precious' not in final['bytes'], 'overwrite-left-old-content', f'{what}: old content still present after overwrite', 'overwritten-completely')
 
+    empty_ds9 = fmt == 'ds9' and len(final['bytes']) == 0 and len(regs) == 0
+
     def rb(key, label, p, f=None):
         try:
             got = read(p, f)
         except Exception as e:      # noqa
+            if empty_ds9 and f is None and 'IORegistryError' in type(e).__name__ and key in ('readback-content-inferred', 'readback-gzip-copy'):
+                key = K_EMPTYDS9      # a zero-byte file carries no content signature
             obs.violation(key, f'{what}: reading back {label} raised {type(e).__name__}: {str(e)[:300]}')
             return
         diff = same_regions(ref, got)
